@@ -205,7 +205,7 @@ def run(chk):
         cols.append(('b2', {'base': 'boolean', 'format': boolsp2} if boolsp2 else 'boolean'))
         tv, fv = (boolsp.split('|') if boolsp else ('true', 'false'))
         tv2, fv2 = (boolsp2.split('|') if boolsp2 else ('true', 'false'))
-        strs = ['plain', 'café', 'x y \x80\x9c\xa4', '12']        # incl. C1 controls, where latin-1 and windows-1252 disagree
+        strs = ['plain #12 (flat)', 'café', 'x y \x80\x9c\xa4', '12']        # incl. C1 controls, where latin-1 and windows-1252 disagree
         data = [[1, 1.5, strs[0], True, datetime.datetime(2020, 2, 29), datetime.datetime(2020, 2, 29, 23, 59, 58), False],
                 [None, None, None, None, None, None, None],
                 [-7, -0.25, strs[1], False, datetime.datetime(1999, 12, 31), datetime.datetime(2001, 1, 1, 0, 0, 0), True],
@@ -217,7 +217,8 @@ def run(chk):
                           None if row[4] is None else row[4].strftime('%Y-%m-%d'),
                           None if row[5] is None else row[5].strftime('%d/%m/%Y %H:%M:%S'),
                           None if row[6] is None else (tv2 if row[6] else fv2)])
-        path, mdpath, md = write_case(wd, 'm%d' % tid, cols, cells, dl, hd, sp, enc, titles=ti)
+        # the same few file names are written again and again with other contents (what was loaded earlier must not matter)
+        path, mdpath, md = write_case(wd, 'm%d' % (tid % 3), cols, cells, dl, hd, sp, enc, titles=ti)
         ev = {'tid': tid, 'ev': 'Load', 'kind': 'matrix', 'raised': 'none', 'names_ok': True, 'dtypes_ok': True, 'values_ok': True,
               'nulls_ok': True, 'rows_ok': True}
         try:
